@@ -232,6 +232,7 @@ type Rec struct {
 	CloseGate chan struct{}
 	closeIn   chan struct{} // closed when Close was entered for the first time
 	closeOnce sync.Once
+	stopped   bool // stress runs: the script stopped this consumer itself
 }
 
 func (r *Rec) Consume(p media.Pack) {
@@ -374,7 +375,7 @@ func (w *World) Join(r *Rec, useGop bool) {
 // Quiesce waits until every non-stalled registered consumer has drained its queue and every
 // stalled one holds exactly one packet in flight (or has an empty queue); generous timeout.
 func (w *World) Quiesce() bool {
-	deadline := time.Now().Add(20 * time.Second)
+	deadline := time.Now().Add(60 * time.Second)
 	stable := 0
 	var last string
 	for time.Now().Before(deadline) {
